@@ -79,12 +79,12 @@ def c06_to_regex(n: int, k: int, t: T12, m: int, starts: int, finals: int, perm:
                  w: Tuple[int, int], wlen: int) -> bool:
     """
     pre: pinned(n=n, k=k, m=m, starts=starts, finals=finals, perm=perm, t0=t[0], t1=t[1], wlen=wlen)
-    pre: 2 <= n <= 3 and 1 <= k <= 2 and 0 <= m <= 4 and 0 <= perm < 6 and 0 <= wlen <= 2
-    pre: 0 <= starts < (4 if n == 2 else 8) and 0 <= finals < (4 if n == 2 else 8)
-    pre: all(0 <= t[3 * i] < n and 0 <= t[3 * i + 1] <= k and 0 <= t[3 * i + 2] < n for i in range(4))
+    pre: ((2 <= n) & (n <= 3)) & ((1 <= k) & (k <= 2)) & ((0 <= m) & (m <= 4)) & ((0 <= perm) & (perm < 6)) & ((0 <= wlen) & (wlen <= 2))
+    pre: ((0 <= starts) & (starts < (4 if n == 2 else 8))) & ((0 <= finals) & (finals < (4 if n == 2 else 8)))
+    pre: enc.sparse_ranges(t, n, k)
     pre: sparse_canonical(t, m)
     pre: n == 3 or perm == 0
-    pre: all(0 <= w[i] < k and (i < wlen or w[i] == 0) for i in range(2))
+    pre: enc.word_ranges(w, wlen, k)
     post: _
     """
     raw = (n, k, t, m, starts, finals, perm, w, wlen)
@@ -105,7 +105,7 @@ def c06_to_regex(n: int, k: int, t: T12, m: int, starts: int, finals: int, perm:
 def c06_two_state(ss: int, se: int, es: int, ee: int, same: int) -> bool:
     """
     pre: pinned(ss=ss, se=se, same=same)
-    pre: 0 <= ss < 4 and 0 <= se < 4 and 0 <= es < 4 and 0 <= ee < 4 and 0 <= same < 2
+    pre: ((0 <= ss) & (ss < 4)) & ((0 <= se) & (se < 4)) & ((0 <= es) & (es < 4)) & ((0 <= ee) & (ee < 4)) & ((0 <= same) & (same < 2))
     post: _
     """
     raw = (ss, se, es, ee, same)
